@@ -148,6 +148,8 @@ func runC14(w *core.World, r *core.Report) {
 	r.Rule("R4", "the assembler's integer encoder never right-trims the big-endian buffer")
 	r.Rule("R5", "Parse* functions hand out the primitive decoders' values unmodified (no constant or arithmetic on a success path)")
 	r.Rule("R6", "disassembler lines are built with constant format strings whose verb count equals the argument count")
+	r.Rule("R14", "the two instruction buffers of the batch menu expansion share no memory")
+	r.Rule("R13", "length and size prefixes are written as bytes: no WriteRune of a computed value in asm or vm")
 	r.Rule("R12", "the assembler encodes each source line in a buffer allocated for it (C16 R6): encodings of concurrent or nested Parse calls cannot interleave")
 	r.Rule("R11", "decoded strings are copies of the instruction bytes: the codec packages do not import unsafe")
 	r.Rule("R10", "the disassembler's listing is written into a buffer allocated for the call")
@@ -390,6 +392,8 @@ func runC14(w *core.World, r *core.Report) {
 	checkNewLineByteArgs(w, r, "R9")
 	checkDisasmFreshBuffer(w, r, "R10")
 	checkCodecNoUnsafe(w, r, "R11")
+	checkNoRuneWrites(w, r, "R13")
+	checkMenuBuffersDistinct(w, r, "R14")
 	checkFreshLineBuffer(w, r, "R12")
 
 	// ---- R4 -----------------------------------------------------------------------------------
